@@ -215,7 +215,13 @@ func proxyCaseN(r *Rng, nWrappers int, maxCallers int, windowP float64, script f
 				s = &c
 			}
 			q = &question{endpoint: []string{"PValidate", "PRefresh"}[kind], s: s, allowed: append([]string(nil), upstreamAllowed[wid]...)}
-			if r.Chance(0.06) { // one wrapper object handed a foreign group set (not deployment-shaped): C16-K3
+			if r.Chance(0.1) { // group names full of quoting trouble, in some order
+				q.allowed = []string{r.Pick(oddStrings), r.Pick(oddStrings)}
+				if r.Chance(0.5) {
+					q.allowed = append(q.allowed, "team-a")
+				}
+			}
+			if r.Chance(0.06) { // one wrapper object handed a foreign group set: no longer merged since C16-K3 was fixed
 				q.allowed = append([]string(nil), upstreamAllowed[(wid+1)%len(upstreamAllowed)]...)
 			}
 		default:
